@@ -345,6 +345,66 @@ pub fn main_poly(args: &[String]) -> i32 {
             }
         }
     }
+    // ---- one GIANT cell: a generator inside a jittered shell of 11 000 generators: about 22 000 vertices, 11 000 faces and
+    // more than 65 535 face-vertex connections (count thresholds of the per-cell face bookkeeping); only that cell is built and
+    // checked (vertices, polygons, incidence, both decompositions) - too large to be recorded for TLC
+    let mut giant_vertices = 0usize;
+    {
+        let m = 11000usize;
+        let c = DVec3::splat(0.5);
+        let mut gens = vec![c];
+        for i in 0..m {
+            let z = 1.0 - 2.0 * (i as f64 + 0.5) / m as f64;
+            let r = (1.0 - z * z).sqrt();
+            let phi = i as f64 * 2.399963229728653;
+            let rad = 0.3 * (1.0 + 1e-5 * rng.gen_range(-1.0..1.0)); // (jitter far below the sagitta between neighbouring planes: every shell point is a face)
+            gens.push(c + rad * DVec3::new(r * phi.cos(), r * phi.sin(), z));
+        }
+        let inp = FInput { id: inputs.len(), kind: "giant".into(), gens, anchor: DVec3::ZERO, width: DVec3::ONE, dim: 3, per: false };
+        let mut mask = vec![false; inp.gens.len()];
+        mask[0] = true;
+        let mask = Some(mask);
+        let built = guarded(|| {
+            let integ = VoronoiIntegrator::build(&inp.gens, mask.as_deref(), inp.anchor, inp.width, Dimensionality::ThreeD, false);
+            let co = integ.get_cell_at(0).unwrap().clone();
+            let cw = co.clone().with_faces();
+            (co, cw)
+        });
+        match built {
+            Err(msg) => {
+                for prop in ["C14", "C15"] {
+                    fails.push(json!({"prop": prop, "what": "the library panicked while building / deriving the faces of a cell with ~22 000 vertices",
+                                      "detail": {"message": msg}, "input": {"kind": "giant", "gens": []}, "mask": Value::Null}));
+                }
+            }
+            Ok((co, cw)) => {
+                giant_vertices = cw.vertices.len();
+                let l = 1.0;
+                let tl = 1e-9 * l + 4096.0 * f64::EPSILON * 2.0;
+                let mut local: Vec<Value> = vec![];
+                let r = guarded(|| {
+                    let mut lf: Vec<Value> = vec![];
+                    {
+                        let mut ctx = Ctx { inp: &inp, mask: &mask, fails: &mut lf };
+                        let _ = check_cell(&mut ctx, 0, &co, &cw, tl, l);
+                    }
+                    lf
+                });
+                match r {
+                    Ok(lf) => local.extend(lf),
+                    Err(msg) => local.push(json!({"prop": "C15", "what": "the library panicked while serving accessor / integral calls on a cell with ~22 000 vertices",
+                                                  "detail": {"message": msg}})),
+                }
+                for mut fl in local.into_iter().take(20) {
+                    // keep the replay file small: the input is described, not listed
+                    fl["mask"] = Value::Null;
+                    fl["input"] = json!({"kind": "giant", "gens": [], "note": "centre + Fibonacci shell of 11000 generators, radius 0.3 (1 +- 1e-5), seed-dependent jitter"});
+                    fails.push(fl);
+                }
+                cells += 1;
+            }
+        }
+    }
     // ---- requesting faces for 1D / 2D cells is rejected, for the whole integrator and for a single cell
     let lows = float_inputs(seed ^ 0x10D, 8, 12, &[1, 2]);
     let mut rejections = 0usize;
@@ -365,7 +425,7 @@ pub fn main_poly(args: &[String]) -> i32 {
         }
     }
     fails.truncate(300);
-    let result = json!({"stats": {"inputs": inputs.len(), "runs": runs, "cells": cells, "largest_face": max_face, "rejections_checked": rejections, "panics": panics},
+    let result = json!({"stats": {"inputs": inputs.len(), "runs": runs, "cells": cells, "largest_face": max_face, "rejections_checked": rejections, "panics": panics, "giant_cell_vertices": giant_vertices},
                         "failures": fails, "samples": samples});
     std::fs::write(&out_path, serde_json::to_string(&result).unwrap()).unwrap();
     0
